@@ -606,22 +606,9 @@ func toF64(v any) float64 {
 // other an integer that float64 cannot hold exactly, "numeric value" and the
 // documented float64 join type can disagree: that is reported as unspecified.
 func numCmp(a, b any) (int, bool) {
-	exact := toBigFloat(a).Cmp(toBigFloat(b))
-	_, af := a.(float64)
-	_, bf := b.(float64)
-	if af != bf {
-		fa, fb := toF64(a), toF64(b)
-		joined := 0
-		if fa < fb {
-			joined = -1
-		} else if fa > fb {
-			joined = 1
-		}
-		if joined != exact {
-			return 0, false
-		}
-	}
-	return exact, true
+	// "compare integers and floats of any width by numeric value": exactly, also where an
+	// integer beyond 2^53 meets a float
+	return toBigFloat(a).Cmp(toBigFloat(b)), true
 }
 
 func kindOf(v any) string {
